@@ -11,5 +11,6 @@ for pid in [k for k in list(spec) if "#" not in k]:
     unc = e["coverage"].get("unconditional_checks")
     if unc:
         spec[pid + "#unconditional"] = {m: n for m, n in sorted(unc.items()) if m in spec[pid]}
+        spec[pid + "#collection-equalities"] = {m[6:]: n for m, n in sorted(unc.items()) if m.startswith("#coll:")}
         print(pid, spec[pid + "#unconditional"])
 json.dump(spec, open(path, "w"), indent=1, sort_keys=True)
